@@ -236,6 +236,28 @@ func checkC12(tier string) {
 			items = append(items, item{pi, mi})
 		}
 	}
+	// for every ordered pair (P, Q) of plugins a corpus package calls: P's prefix a
+	// proper prefix of Q's
+	for pi, p := range corpus {
+		seen := map[string]bool{}
+		var pls []string
+		for _, id := range deriveIdentRe.FindAllString(p.src, -1) {
+			if pl, _ := pluginOf(id, defaultPrefixes()); pl != "" && !seen[pl] {
+				seen[pl] = true
+				pls = append(pls, pl)
+			}
+		}
+		sort.Strings(pls)
+		for _, a := range pls {
+			for _, b := range pls {
+				if a == b {
+					continue
+				}
+				maps = append(maps, c12map{name: fmt.Sprintf("nested %s=px,%s=pxQ", a, b), override: map[string]string{a: "px", b: "pxQ"}, nested: true})
+				items = append(items, item{pi, len(maps) - 1})
+			}
+		}
+	}
 	parDo(len(items), func(ii int) {
 		it := items[ii]
 		p, m := corpus[it.pi], maps[it.mi]
@@ -309,7 +331,7 @@ func checkC12(tier string) {
 	rep.Cov["textual_identity_checks"] = textual
 	rep.Cov["registration_permutations"] = perms
 	rep.Cov["rule"] = "state = (corpus package, prefix map): 9 packages whose calls request helpers across plugins x 16 prefix maps (4 global prefixes, 4 per-plugin override sets, 2 global+override combinations, 6 nested maps where one plugin's prefix is a proper prefix of another's, in both directions); the user sources are derived from the default-named ones by the same renaming; transition = one run of the real goderive with the flags; oracle: renamed run succeeds and type-checks, its functions equal the default run's as sets after naming every generated function plugin‹parameter types› (plugin = longest configured prefix), same imports, and for a bare -prefix the file is textually identical after the inverse substitution; registration order: an in-process driver built against the working tree registers the plugins of each nested map in every permutation and the output must not change"
-	rep.Cov["bound"] = fmt.Sprintf("%d packages x %d prefix maps; %d registration permutations", len(corpus), len(maps), perms)
+	rep.Cov["bound"] = fmt.Sprintf("%d packages x 16 prefix maps + %d per-package nested maps (every ordered pair of plugins the package calls); %d registration permutations", len(corpus), len(maps)-16, perms)
 	rep.Cov["exhaustive"] = true
 	rep.Sample(map[string]interface{}{"package": corpus[0].name, "map": maps[10].name, "renamed_sources": renameSources(corpus[0].src, maps[10])})
 	rep.Sample(map[string]interface{}{"package": corpus[2].name, "map": maps[12].name, "renamed_sources": renameSources(corpus[2].src, maps[12])})
